@@ -121,8 +121,8 @@ func SplitFragments(b []byte) (frs []Frag, rest []byte) {
 
 // Reassembler rebuilds DTLCP messages from fragments (interval bookkeeping per message_seq).
 type Reassembler struct {
-	pend map[uint16]*pendMsg
-	fin  map[uint16]bool
+	pend map[uint32]*pendMsg
+	fin  map[uint32]bool
 	Done []Msg // completed messages in completion order
 }
 
@@ -134,18 +134,20 @@ type pendMsg struct {
 }
 
 func NewReassembler() *Reassembler {
-	return &Reassembler{pend: map[uint16]*pendMsg{}, fin: map[uint16]bool{}}
+	return &Reassembler{pend: map[uint32]*pendMsg{}, fin: map[uint32]bool{}}
 }
 
 // Add feeds one fragment; it returns a message when this fragment completed it.
 func (r *Reassembler) Add(f Frag) *Msg {
-	if f.Off+f.Len > f.Total || r.fin[f.Seq] {
+	// gotlcp numbers Finished with message_seq 0, so the sequence number alone does not identify a message
+	key := uint32(f.Seq)<<8 | uint32(f.Type)
+	if f.Off+f.Len > f.Total || r.fin[key] {
 		return nil // out of bounds, or a retransmission of a message already rebuilt
 	}
-	p := r.pend[f.Seq]
+	p := r.pend[key]
 	if p == nil {
 		p = &pendMsg{typ: f.Type, data: make([]byte, f.Total), have: make([]bool, f.Total)}
-		r.pend[f.Seq] = p
+		r.pend[key] = p
 	}
 	if len(p.data) != f.Total {
 		return nil
@@ -158,8 +160,8 @@ func (r *Reassembler) Add(f Frag) *Msg {
 		p.data[f.Off+i] = f.Data[i]
 	}
 	if p.n == f.Total {
-		delete(r.pend, f.Seq)
-		r.fin[f.Seq] = true
+		delete(r.pend, key)
+		r.fin[key] = true
 		m := Msg{Type: p.typ, Seq: f.Seq, Body: p.data}
 		r.Done = append(r.Done, m)
 		return &m
